@@ -115,7 +115,8 @@ def make_copy_file(rule, build_inputs, buildfile, env):
     recipename = make.var('RULE_{}'.format(copier.rule_name.upper()))
 
     if hasattr(copier, 'transform_input'):
-        input_var = make.qvar('1')
+        # The argument of `$(call ...)` is already shell-quoted.
+        input_var = make.var('1')
         args = [copier.transform_input(rule.file, rule.raw_output)]
     else:
         input_var = make.qvar('<')
